@@ -561,8 +561,29 @@ static struct uref *make_input(struct in_rec *rec, uint64_t seq)
         uref_block_unmap(u, 0);
     }
     if (gen && S.gen_start) uref_block_set_start(u);
-    /* segmented payloads */
-    if (n > 12 && vh_chance(R, 1, 3)) {
+    /* segmented payloads: independent buffers appended to each other (every
+     * segment writable on its own, odd sizes likely) ... */
+    if (n > 12 && vh_chance(R, 1, 4)) {
+        uint8_t *all = malloc(n);
+        uref_block_extract(u, 0, -1, all);
+        int nseg = 2 + vh_below(R, 2);
+        size_t cut[4] = { 0, 0, 0, n };
+        cut[1] = 1 + vh_below(R, (uint32_t)n - 2);
+        cut[2] = nseg == 3 ? cut[1] + vh_below(R, (uint32_t)(n - cut[1])) : n;
+        struct ubuf *first = NULL;
+        for (int k = 0; k < 3; k++) {
+            size_t len = cut[k + 1] - cut[k];
+            if (k == 2 && nseg == 2) break;
+            struct ubuf *seg = ubuf_block_alloc(E.block_mgr, (int)len);
+            if (len) { uint8_t *w2; int ws2 = -1; ubuf_block_write(seg, 0, &ws2, &w2); memcpy(w2, all + cut[k], len); ubuf_block_unmap(seg, 0); }
+            if (!first) first = seg; else ubuf_block_append(first, seg);
+        }
+        uref_attach_ubuf(u, first);
+        free(all);
+        VH_COUNT("input.independent_segments");
+    }
+    /* ... or one buffer split in two segments sharing its memory */
+    else if (n > 12 && vh_chance(R, 1, 3)) {
         struct ubuf *tail = ubuf_block_split(u->ubuf, 4 + vh_below(R, (uint32_t)n - 8));
         if (tail) {
             if (vh_chance(R, 1, 2)) { struct ubuf *t2 = ubuf_dup(tail); ubuf_free(tail); tail = t2; }
